@@ -31,7 +31,7 @@ Bound == Len(hist) <= Depth
 \* bindown with derived widths).  The thorough tier lifts the restrictions and adds longer random sequences.
 QuickCut == /\ (V.kind = "native") => V.ord = "mixed"
             /\ \A i \in 1..Len(hist) : hist[i].api = "bindown"
-            /\ \A i \in 1..(Len(hist) - 1) : (hist[i].g = hist[i + 1].g) \/ (hist[i].b = "old" /\ hist[i + 1].b = "old")
+            /\ \A i \in 1..(Len(hist) - 1) : (hist[i].g = hist[i + 1].g) \/ (V.kind # "native" /\ hist[i].b = "old" /\ hist[i + 1].b = "old")
 
 \* which design mutants a sequence of calls exposes: some clause fails after some call (or before the first)
 RECURSIVE ExposedFrom(_, _, _, _)
